@@ -45,6 +45,7 @@ class Sim:  # pylint: disable=too-many-instance-attributes
         self.root = real_os.path.realpath(root) if root else None
         self.run_id = getattr(self, 'run_id', 0) + 1
         self.seed = seed
+        self.frozen = False  # True: the run is over, late seam calls (unwinding actors, finalizers) are not events
         self.step = 0
         self.digest = hashlib.sha1()
         self.trace = [] if keep_trace else None
@@ -91,7 +92,7 @@ class Sim:  # pylint: disable=too-many-instance-attributes
 
     def point(self, kind, path=None, mut=False, path2=None):
         """A seam call is about to happen. Returns None or a fault name the seam has to act out."""
-        if self.root is None or self.is_quiet() or path is None:
+        if self.root is None or self.frozen or self.is_quiet() or path is None:
             return None
         rel = self.rel(path)
         if rel is None:
